@@ -343,7 +343,7 @@ static char * correct_dimension_units(char * original) {
 		result[i] = tolower(result[i]);
 	}
 
-	if (strstr(&result[strlen(result) - 2], "px")) {
+	if (strlen(result) >= 2 && strstr(&result[strlen(result) - 2], "px")) {
 		result[strlen(result) - 2] = '\0';
 		strcat(result, "pt");
 	}
@@ -384,7 +384,7 @@ void mmd_export_image_latex(DString * out, const char * source, token * text, li
 
 		if (width) {
 			// Width specified
-			if (width[strlen(width) - 1] == '%') {
+			if (width[0] && width[strlen(width) - 1] == '%') {
 				// specified as percent
 				width[strlen(width) - 1] = '\0';
 				temp_float = strtod(width, NULL);
@@ -402,7 +402,7 @@ void mmd_export_image_latex(DString * out, const char * source, token * text, li
 
 		if (height) {
 			// Height specified
-			if (height[strlen(height) - 1] == '%') {
+			if (height[0] && height[strlen(height) - 1] == '%') {
 				// specified as percent
 				height[strlen(height) - 1] = '\0';
 				temp_float = strtod(height, NULL);
